@@ -1161,7 +1161,10 @@ func (w *world) joinOp(s Step) {
 				run.Violate("C17/add_present_failed", "", "adding p%d, which is a member already, at p%d failed: %v", s.Slot, s.At, err)
 			}
 		}
-		if was != yes {
+		if was != yes && ret && err != nil && strings.Contains(err.Error(), "cannot connect to") {
+			// the request never reached the other side: nothing can have changed
+			run.Probe("add_failed_before_reaching_anyone")
+		} else if was != yes {
 			w.member[s.Slot] = maybe
 			defer func() { w.everMember[s.Slot] = true }()
 		}
@@ -1335,6 +1338,9 @@ func (w *world) removeOp(s Step) {
 			run.Probe("noop_failure_not_judged_no_stable_leader")
 		} else if was == no && quietBefore {
 			run.Violate("C17/remove_absent_failed", "", "removing p%d, which is not a member, at p%d failed: %v", s.Slot, s.At, err)
+		} else if err != nil && strings.Contains(err.Error(), "cannot remove ourselves from a 1-peer cluster") {
+			// refused outright by the peer that was asked: nothing was submitted
+			run.Probe("last_peer_removal_refused")
 		} else if was != no {
 			w.member[s.Slot] = maybe
 			if tgtUp {
@@ -1764,6 +1770,12 @@ func (w *world) agreementOnce() string {
 				}
 			}
 		}
+	}
+	if certain == nil && w.count(yes) == 0 {
+		// nobody is known for sure to be a member (every outcome was uncertain):
+		// there is no "every remaining member" to compare
+		w.run.Probe("agreement_not_judged_no_certain_member")
+		return ""
 	}
 	for i := 0; i < w.slots; i++ {
 		if w.member[i] == no {
